@@ -65,6 +65,10 @@ pub enum OpKind {
     /// injector bracket for position sweeps
     SweepWait,
     SweepDone,
+    /// the calling thread becomes the sweep victim
+    Mark,
+    /// block the calling thread until the gate opens
+    WaitGate { g: GateId },
 }
 
 #[derive(Clone, Debug, Serialize, Deserialize, PartialEq)]
@@ -120,6 +124,12 @@ pub struct Program {
     /// objects whose operations may wait on blocking gates (C10)
     #[serde(default)]
     pub blocked_objs: Vec<ObjId>,
+    /// operations that must all be running at the same time at the first quiescence of their phase (C15 capacity)
+    #[serde(default)]
+    pub capacity_probe: Vec<u32>,
+    /// the task that first polls this stream becomes the sweep victim (C16)
+    #[serde(default)]
+    pub mark_on_stream_poll: Option<StreamId>,
 }
 
 impl Program {
@@ -136,6 +146,8 @@ impl Program {
             faults: Faults::default(),
             blocking_gates: vec![],
             blocked_objs: vec![],
+            capacity_probe: vec![],
+            mark_on_stream_poll: None,
         }
     }
 
@@ -251,6 +263,8 @@ impl Op {
             OpKind::Yield(_) => "yield",
             OpKind::SweepWait => "sweep_wait",
             OpKind::SweepDone => "sweep_done",
+            OpKind::Mark => "mark",
+            OpKind::WaitGate { .. } => "wait_gate",
         }
     }
 }
